@@ -38,6 +38,8 @@ def _draw_geom(rng, dim, hostile):
     else:
         angles = [float(rng.uniform(-math.pi, math.pi)) for _ in range(na)]
         anis = [float(np.exp(rng.uniform(math.log(0.2), math.log(5.0)))) for _ in range(dim - 1)]
+        if rng.random() < 0.2:
+            anis = [1.0] * (dim - 1)  # rotated but all ratios 1: still a rotation of the coordinates (drifts, period lattices see it)
     return angles, anis
 
 
@@ -85,7 +87,7 @@ def generate(tier, seed):
             name = str(rng.choice([m for m in PIPE_MODELS if dim <= common.max_valid_dim(m)]))
             angles, anis = _draw_geom(rng, dim, hostile=False)
             cases.append(("pipe_krige", {"dim": dim, "name": name, "angles": angles, "anis": anis,
-                                         "variant": str(rng.choice(["Simple", "Ordinary", "ExtDrift"])),
+                                         "variant": str(rng.choice(["Simple", "Ordinary", "ExtDrift", "Universal", "Universal"])),
                                          "seed": int(rng.integers(1, 1 << 20)), "pseed": int(rng.integers(1 << 30)),
                                          "nugget": float(rng.choice([0.0, 0.2])),
                                          "len_scale": round(float(rng.uniform(0.8, 4)), 3), "cond": bool(rep % 2)}))
@@ -407,8 +409,28 @@ def check_pipe_krige(ctx, c):
     if c["variant"] == "Simple":
         kw = dict(mean=0.4)
     cls = getattr(gs.krige, c["variant"])
-    ka = cls(a, cp, cv, **kw)
-    kb = cls(b, cpi, cv, **kw)
+    if c["variant"] == "Universal":
+        # drift functions are functions of the user's coordinates: f(x) for the anisotropic model, f(T^-1 x') for its isotropic twin
+        back = orot.aniso_matrix(dim, c["angles"], c["anis"])
+        co = rng.normal(size=dim)
+
+        def f_user(*p):
+            return sum(ci * np.asarray(pi) for ci, pi in zip(co, p))
+
+        def f_iso(*p):
+            return f_user(*(back @ np.asarray(p, dtype=float).reshape(dim, -1)))
+
+        n = max(n, dim + 3)
+        cp = rng.uniform(-4, 4, size=(dim, n))
+        cv = rng.normal(size=n)
+        x = np.concatenate([rng.uniform(-5, 5, size=(dim, 15)), cp[:, :2]], axis=1)
+        cpi = orot.isometrize(dim, c["angles"], c["anis"], cp)
+        xi = orot.isometrize(dim, c["angles"], c["anis"], x)
+        ka = cls(a, cp, cv, [f_user])
+        kb = cls(b, cpi, cv, [f_iso])
+    else:
+        ka = cls(a, cp, cv, **kw)
+        kb = cls(b, cpi, cv, **kw)
     if c["cond"]:
         with warnings.catch_warnings():
             warnings.simplefilter("ignore")
